@@ -786,6 +786,18 @@ func ruleExhPayload(c *Ctx, r *R) {
 			}
 		}
 		if len(caseTypes) == 0 {
+			// a handler that re-panics whatever it recovered (possibly wrapped) swallows nothing
+			allPanic := true
+			exits := simulateHandler(fn, nil)
+			for _, e := range exits {
+				if e.kind != "same" && e.kind != "wrap" {
+					allPanic = false
+				}
+			}
+			if allPanic && len(exits) > 0 {
+				r.ok("propagate:"+fname, site, "re-panics every recovered value ("+describeExits(c, exits)+")")
+				continue
+			}
 			// a bare recover that swallows everything
 			r.bad("swallow:"+fname, site, "recover() whose result is not inspected: every panic, including a host interrupt, is swallowed")
 			continue
